@@ -701,6 +701,119 @@ def _dedup(xs):
     return out
 
 
+# matrix-table programs -----------------------------------------------------------------------------------------------------
+
+AXES = ('globals', 'cols', 'rows', 'entries')
+
+
+def py_matrix_ops(m, texts):
+    """documented type contract of the MatrixTable calls on the op texts; m = dict(globals, cols, rows, entries: [(name, type text)],
+    ck, rk: [names]); -> m or None when a call must be refused"""
+    def named(txt):
+        return [tuple(x.split('=', 1)) for x in txt.split('&')] if txt else []
+
+    def insert(fs, new):
+        fs = list(fs)
+        for n, t in new:
+            for j, (k, _) in enumerate(fs):
+                if k == n:
+                    fs[j] = (n, t)
+                    break
+            else:
+                fs.append((n, t))
+        return fs
+
+    def key_of(ax):
+        return m['ck'] if ax == 'cols' else m['rk'] if ax == 'rows' else []
+
+    def others(ax):
+        return [n for b in AXES if b != ax for n, _ in m[b]]
+
+    m = {k: list(v) for k, v in m.items()}
+    for op in texts:
+        if op == 'range':
+            continue
+        parts = op.split(' ')
+        k = parts[0]
+        if k == 'annotate':
+            ax, new = parts[1], named(parts[2])
+            if any(n in key_of(ax) or n in others(ax) for n, _ in new):
+                return None
+            m[ax] = insert(m[ax], new)
+        elif k == 'select':
+            ax = parts[1]
+            keep_txt, _, named_txt = parts[2].partition('|')
+            keep = keep_txt.split(',') if keep_txt else []
+            new = named(named_txt)
+            d = dict(m[ax])
+            if any(n in key_of(ax) or n not in d for n in keep):
+                return None
+            if any(n in key_of(ax) or n in keep or n in others(ax) for n, _ in new):
+                return None
+            m[ax] = [(n, d[n]) for n in key_of(ax)] + [(n, d[n]) for n in keep] + new
+        elif k == 'drop':
+            names = parts[1].split(',')
+            allnames = [n for b in AXES for n, _ in m[b]]
+            if any(n in m['ck'] or n in m['rk'] or n not in allnames for n in names):
+                return None
+            for b in AXES:
+                m[b] = [(n, t) for n, t in m[b] if n not in names]
+        elif k == 'key_cols_by':
+            names = parts[1].split(',') if len(parts) > 1 else []
+            if any(n not in dict(m['cols']) for n in names):
+                return None
+            m['ck'] = names
+        elif k == 'key_rows_by':
+            names = parts[1].split(',') if len(parts) > 1 else []
+            if any(n not in dict(m['rows']) for n in names):
+                return None
+            m['rk'] = names
+        elif k == 'filter':
+            pass
+        else:
+            raise ValueError(op)
+    return m
+
+
+M_RANGE = {'globals': [], 'cols': [('col_idx', 'Int32')], 'ck': ['col_idx'], 'rows': [('row_idx', 'Int32')], 'rk': ['row_idx'], 'entries': []}
+
+
+def _st(fs):
+    return 'Struct{' + ','.join(f'{n}:{t}' for n, t in fs) + '}'
+
+
+def show_m(view, m):
+    if view == 'rows':
+        return f"g={_st(m['globals'])} r={_st(m['rows'])} k=" + ','.join(m['rk'])
+    if view == 'cols':
+        return f"g={_st(m['globals'])} r={_st(m['cols'])} k=" + ','.join(m['ck'])
+    if view == 'entries':
+        return f"g={_st(m['globals'])} r={_st(m['rows'] + m['cols'] + m['entries'])} k=" + ','.join(m['rk'] + m['ck'])
+    return (f"g={_st(m['globals'])} c={_st(m['cols'])} ck={','.join(m['ck'])} r={_st(m['rows'])} rk={','.join(m['rk'])} "
+            f"e={_st(m['entries'])}")
+
+
+def py_matrix(view, left, right=None, post=None):
+    m = py_matrix_ops(M_RANGE, left)
+    if m is None:
+        return None
+    if right is not None:
+        r = py_matrix_ops(M_RANGE, right)
+        if r is None:
+            return None
+        kt = lambda x: [dict(x['rows'])[k] for k in x['rk']]
+        vf = lambda x: [(n, t) for n, t in x['rows'] if n not in x['rk']]
+        if m['entries'] != r['entries'] or m['cols'] != r['cols'] or m['ck'] != r['ck'] or kt(m) != kt(r):
+            return None
+        if any(n in dict(vf(m)) or n in m['rk'] for n, _ in vf(r)):
+            return None
+        m = dict(m, rows=[(k, dict(m['rows'])[k]) for k in m['rk']] + vf(m) + vf(r))
+        m = py_matrix_ops(m, post or [])
+        if m is None:
+            return None
+    return show_m(view, m)
+
+
 # table programs ----------------------------------------------------------------------------------------------------------
 
 H_RANK = {'Boolean': 0, 'Int32': 1, 'Int64': 2, 'Float32': 3, 'Float64': 4}
@@ -878,7 +991,9 @@ class C36(Prop):
 'annotate_globals, select, drop, key_by, filter, order_by, rename, explode) from range_table; tunion (10%) = t0.union(t1, … '
             'unify=False/True) of 2-4 such pipelines (fields present / absent / of different numeric types / reordered / key field moved '
             'inside the row / clashing / keys differing), checked against the TableUnion rule that all children carry the result\'s row '
-            'type and key; tjoin (3%) = l.join(r).  non-trivial = the front end '
+'type and key; tjoin (3%) = l.join(r); matrix (12%) = MatrixTable pipelines from range_matrix_table (annotate / select '
+            'rows / cols / entries / globals, drop, key_cols_by incl. the empty key, key_rows_by, filter_*, union_cols) seen as a matrix '
+            'table or through rows() / cols() / entries(), the IR-implied type being the engine\'s typing rules of the Matrix* nodes.  non-trivial = the front end '
             'accepted the program / produced a type; distinct by full case')
     trusted = ['harness/hailenv.py StubBackend (no engine); decorator / deprecated / parsimonious shims on the import path of `hail`; '
                'pandas is an inert stub (pd.isna is only reached for values impute_type does not know)',
@@ -1167,6 +1282,138 @@ class C36(Prop):
                 extra = f'table[{f!r}].dtype = {ht[f].dtype} but the row type says {ht.row.dtype[f]}'
         return ('ok', fe, it, texts, extra)
 
+    def m_expr(self, mt, axis, ty, src):
+        hl = self.hl
+        if axis == 'globals':
+            return self._global_expr(ty)
+        x = (mt[src[0]] + mt[src[1]]) if axis == 'entries' else mt[src]
+        if ty == 'i32':
+            return x * 2 + 1
+        if ty == 'i64':
+            return hl.int64(x)
+        if ty == 'f64':
+            return hl.float64(x) / 2
+        if ty == 'bool':
+            return x > 3
+        if ty == 'str':
+            return hl.str(x)
+        if ty == 'arr':
+            return hl.array([x, 1])
+        if ty == 'st':
+            return hl.struct(u=x, v=hl.float64(x))
+        raise ValueError(ty)
+
+    def run_mpipeline(self, mt, ops, texts):
+        for op in ops:
+            k = op[0]
+            if k == 'annotate':
+                ax = op[1]
+                named = {n: self.m_expr(mt, ax, ty, src) for n, ty, src in op[2]}
+                texts.append(f'annotate {ax} ' + '&'.join(f'{n}={e.dtype._parsable_string()}' for n, e in named.items()))
+                mt = getattr(mt, 'annotate_' + ax)(**named)
+            elif k == 'select':
+                ax = op[1]
+                named = {n: self.m_expr(mt, ax, ty, src) for n, ty, src in op[3]}
+                texts.append(f'select {ax} ' + ','.join(op[2]) + '|' + '&'.join(f'{n}={e.dtype._parsable_string()}' for n, e in named.items()))
+                mt = getattr(mt, 'select_' + ax)(*op[2], **named)
+            elif k == 'drop':
+                texts.append('drop ' + ','.join(op[1]))
+                mt = mt.drop(*op[1])
+            elif k == 'key_cols_by':
+                texts.append(('key_cols_by ' + ','.join(op[1])).strip())
+                mt = mt.key_cols_by(*op[1])
+            elif k == 'key_rows_by':
+                texts.append(('key_rows_by ' + ','.join(op[1])).strip())
+                mt = mt.key_rows_by(*op[1])
+            elif k == 'filter':
+                texts.append('filter ' + op[1])
+                src = op[2]
+                x = (mt[src[0]] + mt[src[1]]) if op[1] == 'entries' else mt[src]
+                mt = getattr(mt, 'filter_' + op[1])(x > 1)
+            else:
+                raise ValueError(k)
+        return mt
+
+    def implied_mtype(self, mir):
+        """the matrix type the ENGINE's typing rules (MatrixIR.scala / MatrixType.scala, transcribed) give the emitted MatrixIR: a dict
+        of hail struct types and key lists.  Value-IR types (new row / col / entry / global structs) are taken from the IR."""
+        from hail.ir import matrix_ir as M
+        hl = self.hl
+        if isinstance(mir, M.MatrixRead):
+            t = mir.typ
+            return dict(g=t.global_type, c=t.col_type, ck=list(t.col_key), r=t.row_type, rk=list(t.row_key), e=t.entry_type)
+        if isinstance(mir, M.MatrixMapRows):
+            return dict(self.implied_mtype(mir.child), r=mir.new_row.typ)
+        if isinstance(mir, M.MatrixMapCols):
+            ch = self.implied_mtype(mir.child)
+            return dict(ch, c=mir.new_col.typ, ck=list(mir.new_key) if mir.new_key is not None else ch['ck'])   # newKey.getOrElse(…)
+        if isinstance(mir, M.MatrixMapEntries):
+            return dict(self.implied_mtype(mir.child), e=mir.new_entry.typ)
+        if isinstance(mir, M.MatrixMapGlobals):
+            return dict(self.implied_mtype(mir.child), g=mir.new_global.typ)
+        if isinstance(mir, M.MatrixKeyRowsBy):
+            return dict(self.implied_mtype(mir.child), rk=list(mir.keys))
+        if isinstance(mir, (M.MatrixFilterRows, M.MatrixFilterCols, M.MatrixFilterEntries)):
+            return self.implied_mtype(mir.child)
+        if isinstance(mir, M.MatrixUnionCols):
+            l, r = self.implied_mtype(mir.left), self.implied_mtype(mir.right)
+            lk = [(k, l['r'][k]) for k in l['rk']]
+            lv = [(n, t) for n, t in l['r'].items() if n not in l['rk']]
+            rv = [(n, t) for n, t in r['r'].items() if n not in r['rk']]
+            return dict(l, r=hl.tstruct(**dict(lk + lv + rv)))
+        raise KeyError(f'matrix node {type(mir).__name__} is outside the transcribed rules')
+
+    def m_lines(self, view, mt_or_table):
+        """(front-end line, IR-implied line)"""
+        from hail.ir import table_ir as TI
+        x = mt_or_table
+        if view == 'matrix':
+            fe = (f'g={x.globals.dtype._parsable_string()} c={x.col.dtype._parsable_string()} ck={",".join(x.col_key)} '
+                  f'r={x.row.dtype._parsable_string()} rk={",".join(x.row_key)} e={x.entry.dtype._parsable_string()}')
+            try:
+                x._mir.compute_type(deep_typecheck=True)
+                t = self.implied_mtype(x._mir)
+                it = (f'g={t["g"]._parsable_string()} c={t["c"]._parsable_string()} ck={",".join(t["ck"])} '
+                      f'r={t["r"]._parsable_string()} rk={",".join(t["rk"])} e={t["e"]._parsable_string()}')
+            except AssertionError as ex:
+                it = f'deep-typecheck-assertion {str(ex)[:120]}'
+            return fe, it
+        fe = self.tt_line(x.globals.dtype, x.row.dtype, list(x.key))
+        try:
+            x._tir.compute_type(deep_typecheck=True)
+            t = self.implied_mtype(x._tir.child)
+            if isinstance(x._tir, TI.MatrixRowsTable):
+                it = self.tt_line(t['g'], t['r'], t['rk'])
+            elif isinstance(x._tir, TI.MatrixColsTable):
+                it = self.tt_line(t['g'], t['c'], t['ck'])
+            else:
+                it = self.tt_line(t['g'], self.hl.tstruct(**{**dict(t['r'].items()), **dict(t['c'].items()), **dict(t['e'].items())}),
+                                  t['rk'] + t['ck'])
+        except AssertionError as ex:
+            it = f'deep-typecheck-assertion {str(ex)[:120]}'
+        return fe, it
+
+    def run_matrix(self, c):
+        """-> ('ok', fe, it, (left texts, right texts | None, post texts)) | ('rejected', why, texts) | ('assert', why, texts)"""
+        hl = self.hl
+        lt, rt, pt = ['range'], (['range'] if c.get('right') is not None else None), []
+        try:
+            mt = self.run_mpipeline(hl.utils.range_matrix_table(3, 4), c['ops'], lt)
+            if c.get('right') is not None:
+                other = self.run_mpipeline(hl.utils.range_matrix_table(3, 2), c['right'], rt)
+                dr = bool(c.get('drop_right', True))
+                if dr:
+                    rt.append('select rows |')       # union_cols(drop_right_row_fields=True) first does other.select_rows()
+                mt = mt.union_cols(other, row_join_type=c.get('join', 'inner'), drop_right_row_fields=dr)
+                mt = self.run_mpipeline(mt, c.get('post', []), pt)
+            x = mt if c['view'] == 'matrix' else getattr(mt, c['view'])()
+        except AssertionError as ex:
+            return ('assert', f'AssertionError {str(ex)[:200]}', (lt, rt, pt))
+        except Exception as ex:
+            return ('rejected', type(ex).__name__, (lt, rt, pt))
+        fe, it = self.m_lines(c['view'], x)
+        return ('ok', fe, it, (lt, rt, pt))
+
     def run_combo(self, c):
         """union / join of pipelines -> ('ok', front-end line, ir line, [branch texts], note) | ('rejected', why, texts) | ('assert', …)"""
         branches = c['tables'] if c['kind'] == 'tunion' else [c['left'], c['right']]
@@ -1270,6 +1517,82 @@ class C36(Prop):
                 row[n] = 'i32'
         return {'kind': 'table', 'ops': ops}
 
+    def gen_mpipe(self, rng, prefix, n_ops, right=False):
+        st = {'globals': {}, 'cols': {'col_idx': 'i32'}, 'rows': {'row_idx': 'i32'}, 'entries': {}, 'ck': ['col_idx'], 'rk': ['row_idx']}
+        ops = []
+        fresh = iter(f'{prefix}{i}' for i in range(100))
+        for _ in range(n_ops):
+            ri = [n for n, t in st['rows'].items() if t == 'i32']
+            ci = [n for n, t in st['cols'].items() if t == 'i32']
+            kinds = ['annotate', 'annotate', 'annotate', 'select', 'drop', 'filter']
+            if not right:
+                kinds += ['key_cols_by', 'key_cols_by', 'key_rows_by']
+            k = rng.choice(kinds)
+            ax = rng.choice(['rows', 'cols', 'entries', 'globals'] if not right else ['rows', 'rows', 'globals'])
+            src = {'rows': ri and rng.choice(ri), 'cols': ci and rng.choice(ci), 'entries': (ri and ci) and [rng.choice(ri), rng.choice(ci)],
+                   'globals': 'g'}[ax]
+            if k in ('annotate', 'select', 'filter') and not src:
+                continue
+            key = st['ck'] if ax == 'cols' else st['rk'] if ax == 'rows' else []
+            nonkey = [n for n in st[ax] if n not in key]
+            if k == 'annotate':
+                named = []
+                for _ in range(rng.choice([1, 2])):
+                    n = rng.choice(nonkey) if nonkey and rng.random() < 0.2 else next(fresh)
+                    if n not in [x[0] for x in named]:
+                        named.append([n, rng.choice(['i32', 'i32', 'i64', 'f64', 'bool', 'str', 'arr', 'st']), src])
+                ops.append(['annotate', ax, named])
+                for n, ty, _ in named:
+                    st[ax][n] = ty
+            elif k == 'select' and ax != 'globals':
+                keep = rng.sample(nonkey, rng.randint(0, len(nonkey))) if nonkey else []
+                named = [[next(fresh), rng.choice(['i32', 'f64', 'str']), src]] if rng.random() < 0.4 else []
+                ops.append(['select', ax, keep, named])
+                st[ax] = {**{n: st[ax][n] for n in key}, **{n: st[ax][n] for n in keep}, **{n: ty for n, ty, _ in named}}
+            elif k == 'drop':
+                cand = [n for a in ('globals', 'cols', 'rows', 'entries') for n in st[a] if n not in st['ck'] and n not in st['rk']]
+                if not cand:
+                    continue
+                d = rng.sample(cand, rng.randint(1, min(2, len(cand))))
+                ops.append(['drop', d])
+                for a in ('globals', 'cols', 'rows', 'entries'):
+                    for n in d:
+                        st[a].pop(n, None)
+            elif k == 'filter' and ax != 'globals':
+                ops.append(['filter', ax, src])
+            elif k == 'key_cols_by':
+                ks = [] if rng.random() < 0.45 or not st['cols'] else rng.sample(list(st['cols']), rng.randint(1, min(2, len(st['cols']))))
+                ops.append(['key_cols_by', ks])
+                st['ck'] = ks
+            elif k == 'key_rows_by':
+                ks = [] if rng.random() < 0.25 or not st['rows'] else rng.sample(list(st['rows']), rng.randint(1, min(2, len(st['rows']))))
+                ops.append(['key_rows_by', ks])
+                st['rk'] = ks
+        return ops, st
+
+    def gen_matrix(self, rng):
+        ops, st = self.gen_mpipe(rng, 'f', rng.choice([1, 2, 3, 4, 5, 6]))
+        c = {'kind': 'matrix', 'view': rng.choice(['matrix', 'matrix', 'rows', 'cols', 'cols', 'entries', 'entries']), 'ops': ops}
+        if rng.random() < 0.25:
+            # left.union_cols(right): make the left side compatible — no col / entry changes, one int32 row key
+            lops = []
+            ri = ['row_idx']
+            named = [[f'f{i}', rng.choice(['i32', 'i32', 'f64', 'str']), 'row_idx'] for i in range(rng.choice([0, 1, 2]))]
+            if named:
+                lops.append(['annotate', 'rows', named])
+                ri += [n for n, ty, _ in named if ty == 'i32']
+            if rng.random() < 0.6:
+                lops.append(['key_rows_by', [rng.choice(ri)]])
+            rnamed = [[f'q{i}', rng.choice(['i32', 'f64', 'str']), 'row_idx'] for i in range(rng.choice([0, 1, 2]))]
+            rops = [['annotate', 'rows', rnamed]] if rnamed else []
+            post = []
+            if rng.random() < 0.5:
+                post.append(['key_cols_by', [] if rng.random() < 0.6 else ['col_idx']])
+            if rng.random() < 0.3:
+                post.append(['annotate', 'rows', [['z0', 'i64', ri[0]]]])
+            c.update(ops=lops, right=rops, post=post, join=rng.choice(['inner', 'outer']), drop_right=rng.random() < 0.35)
+        return c
+
     def gen_union(self, rng):
         """2-4 tables for t0.union(t1, …): a shared plan of field names; per table each field is present or absent, numeric fields get
         a numeric type of their own (int32 / int64 / float64), the order is shuffled, the key field may sit anywhere in the row,
@@ -1331,7 +1654,10 @@ class C36(Prop):
             if r < 0.13:
                 yield self.gen_join(rng)
                 continue
-            r = (r - 0.13) / 0.87
+            if r < 0.25:
+                yield self.gen_matrix(rng)
+                continue
+            r = (r - 0.25) / 0.75
             if r < 0.45:
                 yield {'kind': 'expr', 'prog': g.any_expr(rng.choice([1, 2, 2, 3, 3, 4]))}
             elif r < 0.8:
@@ -1348,6 +1674,14 @@ class C36(Prop):
             return [f'infer ||| - ||| {r[3]}'] * 2
         if c['kind'] == 'impute':
             return ['impute ||| ' + sexp_of_json(c['value'])]
+        if c['kind'] == 'matrix':
+            r = self.run_matrix(c)
+            if r[0] == 'assert':
+                return ['echo ||| assert'] * 2
+            lt, rt, pt = r[3] if r[0] == 'ok' else r[2]
+            if rt is None:
+                return [f'matrix ||| {c["view"]} ||| ' + ' ; '.join(lt)] * 2
+            return [f'munion ||| {c["view"]} ||| ' + ' ; '.join(lt) + ' ||| ' + ' ; '.join(rt) + ' ||| ' + (' ; '.join(pt) or 'range')] * 2
         if c['kind'] in ('tunion', 'tjoin'):
             r = self.run_combo(c)
             if r[0] == 'assert':
@@ -1376,6 +1710,13 @@ class C36(Prop):
                 return ['t=none ok=0']
             tt = parse_type(t._parsable_string())
             return [f't={show_type(norm_type(tt))} ok={int(py_check(tt, c["value"]))}']
+        if c['kind'] == 'matrix':
+            r = self.run_matrix(c)
+            if r[0] == 'assert':
+                return ['assert'] * 2
+            if r[0] == 'rejected':
+                return ['none'] * 2
+            return [r[1], r[2]]
         if c['kind'] in ('tunion', 'tjoin'):
             r = self.run_combo(c)
             if r[0] == 'assert':
@@ -1431,6 +1772,21 @@ class C36(Prop):
                     except Exception as ex:
                         why = f'rendering the literal raises {type(ex).__name__}: {ex}'
                     return f'hl.literal({v!r}).dtype = {lit.dtype}, a type the value cannot be stored at; {why}'
+            return None
+        if c['kind'] == 'matrix':
+            r = self.run_matrix(c)
+            if r[0] == 'assert':
+                return f'assertion inside the front end while building the matrix table: {r[1]}'
+            lt, rt, pt = r[3] if r[0] == 'ok' else r[2]
+            want = py_matrix(c['view'], lt, rt, pt)
+            call = ' ; '.join(lt) + ((' UNION_COLS ' + ' ; '.join(rt) + ' THEN ' + ' ; '.join(pt)) if rt is not None else '') + f' VIEW {c["view"]}'
+            if r[0] == 'rejected':
+                return None if want is None else f'the front end refuses ({r[1]}) a call the API contract types as {want}: {call}'
+            _, fe, it, _ = r
+            if fe != it:
+                return f'MatrixTable reports {fe} but the engine\'s typing rules give the emitted IR {it}: {call}'
+            if want != fe:
+                return f'MatrixTable reports {fe} but the API contract gives {want} for {call}'
             return None
         if c['kind'] in ('tunion', 'tjoin'):
             r = self.run_combo(c)
@@ -1538,6 +1894,16 @@ class C36(Prop):
                 if f'"{k}"' in s:
                     tags.append('value-has:' + k)
             nontrivial = ok
+        elif kind == 'matrix':
+            r = self.run_matrix(c)
+            tags.append('matrix:' + r[0])
+            tags.append('matrix-view:' + c['view'])
+            if c.get('right') is not None:
+                tags.append('matrix:union_cols')
+            for op in c['ops'] + (c.get('right') or []) + c.get('post', []):
+                tags.append('matrix-op:' + op[0] + ('_' + op[1] if op[0] in ('annotate', 'select', 'filter') else '')
+                            + ('()' if op[0] in ('key_cols_by', 'key_rows_by') and not op[1] else ''))
+            nontrivial = r[0] == 'ok'
         elif kind in ('tunion', 'tjoin'):
             r = self.run_combo(c)
             tags.append(f'{kind}:' + r[0])
@@ -1612,6 +1978,30 @@ class C36(Prop):
             return cur
         if c['kind'] == 'tjoin':
             return c
+        if c['kind'] == 'matrix':
+            cur = c
+            changed = True
+            while changed:
+                changed = False
+                cands = []
+                for fld in ('ops', 'right', 'post'):
+                    lst = cur.get(fld)
+                    if not lst:
+                        continue
+                    for i in range(len(lst)):
+                        cands.append(dict(cur, **{fld: lst[:i] + lst[i + 1:]}))
+                        if lst[i][0] == 'annotate' and len(lst[i][2]) > 1:
+                            for k in range(len(lst[i][2])):
+                                op2 = ['annotate', lst[i][1], lst[i][2][:k] + lst[i][2][k + 1:]]
+                                cands.append(dict(cur, **{fld: lst[:i] + [op2] + lst[i + 1:]}))
+                if cur.get('right') is not None and not cur['right'] and not cur.get('post'):
+                    cands.append({k: v for k, v in cur.items() if k not in ('right', 'post', 'join', 'drop_right')})
+                for cand in cands:
+                    if fails(cand):
+                        cur = cand
+                        changed = True
+                        break
+            return cur
         ops = list(c['ops'])
         changed = True
         while changed and len(ops) > 1:
